@@ -38,7 +38,9 @@ def check_build(cfg, run, ctx, key, e, proj_template):
     outs, modes, B = e[0], e[6], e[5]
     seq = run.seq
     built_first = {}
-    order = list(range(len(cfg.assignments))) + [0]          # a1, a2, ..., a1 again
+    n_as = len(cfg.assignments)
+    # a1, then the assignment nearly equal to a1 (if any), the others, a1 again
+    order = [0] + ([n_as - 1] if n_as >= 4 else []) + list(range(1, n_as - 1 if n_as >= 4 else n_as)) + [0]
     for n, a in enumerate(order):
         assign = cfg.assignments[a]
         res, built = _build(seq, dict(assign))
